@@ -5,6 +5,7 @@ import (
 	"os"
 	"sort"
 	"strings"
+	"sync"
 
 	"git.defalsify.org/vise.git/cache"
 	"git.defalsify.org/vise.git/state"
@@ -33,7 +34,62 @@ type sessOpts struct {
 	PastEnd bool
 	// FilterReserved: the resource drops reserved flag indices from results (C06 two-run oracle)
 	FilterReserved bool
+	// Turn, if set, makes every request wait for this session's turn: two monitored sessions of one application
+	// are served request by request in alternation (what a server with several clients does)
+	Turn *turnstile
+	Side int
 }
+
+// turnstile alternates two parties; a party that has finished lets the other run freely.
+type turnstile struct {
+	mu   sync.Mutex
+	cond *sync.Cond
+	turn int
+	done [2]bool
+}
+
+func newTurnstile() *turnstile {
+	t := &turnstile{}
+	t.cond = sync.NewCond(&t.mu)
+	return t
+}
+
+func (t *turnstile) acquire(id int) {
+	t.mu.Lock()
+	for t.turn != id && !t.done[1-id] {
+		t.cond.Wait()
+	}
+	t.mu.Unlock()
+}
+
+func (t *turnstile) release(id int) {
+	t.mu.Lock()
+	t.turn = 1 - id
+	t.cond.Broadcast()
+	t.mu.Unlock()
+}
+
+func (t *turnstile) finish(id int) {
+	t.mu.Lock()
+	t.done[id] = true
+	t.turn = 1 - id
+	t.cond.Broadcast()
+	t.mu.Unlock()
+}
+
+type turnDriver struct {
+	inner app.Driver
+	t     *turnstile
+	id    int
+}
+
+func (d *turnDriver) Request(in []byte) *app.Obs {
+	d.t.acquire(d.id)
+	defer d.t.release(d.id)
+	return d.inner.Request(in)
+}
+
+func (d *turnDriver) Close() { d.inner.Close() }
 
 type sessStats struct {
 	Requests, Moves, Calls, Renders, TextCompared, Blocked, Restarts, Errors int
@@ -68,6 +124,10 @@ func monitorSession(c *vk.Ctx, a *app.App, cfg app.Config, hist []string, o sess
 		pr.Res.FilterReserved = o.FilterReserved
 		d = pr
 		m.FreshEngine = true
+	}
+	if o.Turn != nil {
+		d = &turnDriver{inner: d, t: o.Turn, id: o.Side}
+		defer o.Turn.finish(o.Side)
 	}
 	defer d.Close()
 	for step, in := range hist {
@@ -390,8 +450,48 @@ func (mc *modelCheck) run(c *vk.Ctx) {
 			hist = a.History(r, r.Range(mc.HistLen[0], mc.HistLen[1]))
 		}
 		c.Begin(key)
+		// every fourth case serves a second session of the same application in alternation with the monitored one
+		// (its own engine, state, cache, store; the application data is shared): both are checked against their models
+		pair := i%4 == 1
+		var hist2 []string
+		cfg2 := cfg
+		if pair {
+			cfg2.SessionId = cfg.SessionId + "-other"
+			r2 := c.RNG(key + "/pair")
+			if mc.Hist != nil {
+				hist2 = mc.Hist(r2, a)
+			} else {
+				hist2 = a.History(r2, r2.Range(mc.HistLen[0], mc.HistLen[1]))
+			}
+			c.Count("histories_served_in_alternation_with_a_second_session", 1)
+		}
 		for _, drv := range mc.Drivers {
-			d, st := monitorSession(c, a, cfg, hist, sessOpts{Driver: drv, PastEnd: mc.PastEnd && drv != "long"})
+			var d *disc
+			var st *sessStats
+			if pair {
+				t := newTurnstile()
+				var d2 *disc
+				var wg sync.WaitGroup
+				wg.Add(1)
+				go func() {
+					defer wg.Done()
+					defer func() {
+						if pv := recover(); pv != nil {
+							t.finish(1)
+							d2 = &disc{Kind: "harness", Msg: fmt.Sprintf("second session: %v", pv)}
+						}
+					}()
+					d2, _ = monitorSession(c, a, cfg2, hist2, sessOpts{Driver: drv, PastEnd: mc.PastEnd && drv != "long", Turn: t, Side: 1})
+				}()
+				d, st = monitorSession(c, a, cfg, hist, sessOpts{Driver: drv, PastEnd: mc.PastEnd && drv != "long", Turn: t, Side: 0})
+				wg.Wait()
+				if d == nil && d2 != nil {
+					d = d2
+					d.Msg = "(second session, served in alternation) " + d.Msg
+				}
+			} else {
+				d, st = monitorSession(c, a, cfg, hist, sessOpts{Driver: drv, PastEnd: mc.PastEnd && drv != "long"})
+			}
 			c.Eval(vk.Hash64(key, drv), mc.NonTrivial == nil || mc.NonTrivial(st))
 			c.Count("requests", int64(st.Requests))
 			c.Count("moves_observed", int64(st.Moves))
